@@ -189,6 +189,9 @@ func (c *Cluster) byzAct(rng *rand.Rand, b int, blocks *[]byzBlock) {
 			typ = types.VoteTypePrecommit
 		}
 		r := rs.Round + rng.Intn(4) - 1
+		if rng.Intn(3) == 0 && rs.Round > 0 {
+			r = rng.Intn(rs.Round + 1) // a late vote for any earlier round (old polkas must stay harmless)
+		}
 		if r < 0 {
 			r = 0
 		}
